@@ -662,6 +662,11 @@ impl Engine for C18 {
     fn exhaustive_note(&self, quick: bool) -> Option<String> {
         Some(format!("exhaustive over all operation histories of length <= {} for 3 base data maps (28 operation letters); longer histories sampled", exhaustive_depth(quick)))
     }
+    fn exhaustive(&self, _quick: bool) -> bool {
+        // the bounded space (all histories up to the tier's length) is enumerated completely; the
+        // longer random histories come on top
+        true
+    }
     fn required_probes(&self) -> Vec<&'static str> {
         vec!["histories.exhaustive", "histories.random"]
     }
